@@ -59,6 +59,8 @@ let count = ref 0
 
 (* ---- stop-decision monitor (coq/Conc/SchedStop.v, theorem C06_stop_sound) ----
    per actor: what it observed since it last did anything else (newest first) *)
+let world = ref 0   (* number of records so far that are not idle reads: reads made in the same epoch observe one model state *)
+let line_epoch : (int, int) Hashtbl.t = Hashtbl.create 64
 type wrec = WObs of int * sobs * bool   (* line, observation, no unit of that pool in somebody's hands (zero reads only) *)
           | WNs of int * int * int      (* line, pool, num_scheds read *)
           | WCancel
@@ -77,7 +79,10 @@ let all_done p =
     if not (unit_done ((!cur).un (nat_of u)) (nat_of p)) then live := u :: !live
   done; !live
 let pending_empty : (int, int * int) Hashtbl.t = Hashtbl.create 8   (* actor -> (line, queue) of an "empty" read of an unknown queue *)
-let note_obs aptr r = Hashtbl.replace win aptr (r :: (match Hashtbl.find_opt win aptr with Some l -> l | None -> []))
+let wline = function WObs (l, _, _) -> l | WNs (l, _, _) -> l | WCancel -> -1
+let note_obs aptr r =
+  if not (Hashtbl.mem line_epoch (wline r)) then Hashtbl.replace line_epoch (wline r) !world;
+  Hashtbl.replace win aptr (r :: (match Hashtbl.find_opt win aptr with Some l -> l | None -> []))
 let learn_queue aptr p =
   match Hashtbl.find_opt pending_empty aptr with
   | Some (l, qp) ->
@@ -87,19 +92,15 @@ let learn_queue aptr p =
       note_obs aptr (WObs (l, SEmpty (nat_of p, true), false))
     end
   | None -> ()
-let wline = function WObs (l, _, _) -> l | WNs (l, _, _) -> l | WCancel -> -1
 let sched_stop ln aptr =
   let w = List.rev (match Hashtbl.find_opt win aptr with Some l -> l | None -> []) in
   incr stops;
   if List.exists (function WCancel -> true | _ -> false) w then incr stops_cancel
   else begin
     let w = List.sort (fun a b -> compare (wline a) (wline b)) w in
-    (* reads on consecutive lines of the history observe one and the same model state (nothing was recorded in
-       between), so their order among themselves is immaterial: number these groups *)
-    let grp = Hashtbl.create 16 in
-    let g = ref 0 and prev = ref (-10) in
-    List.iter (fun r -> let l = wline r in if l <> !prev + 1 then incr g; prev := l; Hashtbl.replace grp l !g) w;
-    let gof l = try Hashtbl.find grp l with Not_found -> -1 in
+    (* reads between which nothing but idle reads (of any actor) was recorded observe one and the same model state,
+       so their order among themselves is immaterial: they form a group (the epoch of their lines) *)
+    let gof l = try Hashtbl.find line_epoch l with Not_found -> -1 in
     (* within a group: counter reads before emptiness reads *)
     let key = function WObs (l, SNb _, _) -> (gof l, 0, l) | WObs (l, SEmpty _, _) -> (gof l, 1, l) | r -> (gof (wline r), 2, wline r) in
     let w = List.sort (fun a b -> compare (key a) (key b)) w in
@@ -169,13 +170,13 @@ let () =
       | actor :: "NBWHO" :: t :: _ :: c :: _ -> (match Hashtbl.find_opt pend actor with
           | Some j -> Hashtbl.replace who_of j (t, int_of_string ("0x" ^ c) land 0x100 <> 0); Hashtbl.remove pend actor | None -> ())
       | _ -> ()) arr;
-  let status = ref "" in
+  let status = ref "" and nohooks = ref false in
   let unitstat = ref [] and quiesce = ref [] and xjoin = ref [] in
   let mism = ref None in
   (* the harness's own per-unit counters are read first: they are judged even when the replay stops early *)
   List.iter (fun l ->
       match words l with
-      | "STATUS" :: s :: _ -> status := s
+      | "STATUS" :: s :: rest -> status := s; if List.mem "nohooks=1" rest then nohooks := true
       | "UNITSTAT" :: i :: rest ->
         unitstat := (int_of_string i, List.map (fun w -> match String.split_on_char '=' w with [k; v] -> (k, v) | _ -> ("", "")) rest) :: !unitstat
       | _ -> ()) lines;
@@ -185,10 +186,30 @@ let () =
       | "STATUS" :: _ -> ()
       | "THR" :: _ -> ()
       | "UNITSTAT" :: _ -> ()
+      | _ :: kind :: f when !nohooks ->
+        (* a run without hooks (the library's own locking only): no replay; the harness's own observations are judged *)
+        (match kind, f with
+         | "K1016", [k; sz; tot] -> quiesce := (int_of_string k, int_of_string sz, int_of_string tot) :: !quiesce
+         | "K1014", [op; idx; c] ->
+           let op = int_of_string op and idx = int_of_string idx in
+           if op = Char.code 'x' then xjoin := (idx, int_of_string c) :: !xjoin
+           else if op = Char.code 'j' then begin
+             let v = int_of_string c in
+             if v / 10000 <> 0 || (v / 1000) mod 10 <> 1 || v mod 1000 <> 0 then
+               api_bad := Printf.sprintf "xstream_join(ES%d)-returned-rc=%d-state=%d-with-%d-unfinished-units" idx (v / 10000) ((v / 1000) mod 10) (v mod 1000) :: !api_bad
+           end
+           else if op = Char.code 'm' then begin
+             if int_of_string c <> 0 then api_bad := Printf.sprintf "ABT_thread_migrate(unit%d)-returned-%s" idx c :: !api_bad
+           end
+         | _ -> ())
       | actor :: kind :: f ->
         let aptr = (match String.split_on_char '@' actor with [_; p] -> hex p | _ -> 0) in
         let desc = kind ^ " " ^ String.concat " " f in
         let a = aid aptr in
+        (match kind, f with
+         | ("QEMPTY" | "NSLOAD" | "NBLOAD" | "SREQLD"), _ -> ()
+         | "QPOP", [_; t; _] when hex t = 0 -> ()
+         | _ -> incr world);
         (* the stop-decision window of this actor ends with anything that is not an observation *)
         (match kind, f with
          | ("NBLOAD" | "NSLOAD"), _ -> ()
@@ -357,6 +378,7 @@ let () =
               note_obs aptr (WObs (ln, SEmpty (nat_of p, hex v <> 0), false))
             | None -> if hex v = 0 then raise (Mismatch (Printf.sprintf "line=%d a queue nothing was pushed to is reported non-empty" ln));
               (* which pool this queue belongs to is learnt from the next counter read of the same actor *)
+              Hashtbl.replace line_epoch ln !world;
               Hashtbl.replace pending_empty aptr (ln, hex qp))
          | "NBLOAD", [p; _; v] -> let p = pool_id (hex p) in
            learn_queue aptr p;
@@ -369,7 +391,7 @@ let () =
       | _ -> ()) lines
   with Mismatch m -> mism := Some m);
   (match !mism with
-   | None -> Printf.printf "OK events=%d units=%d status=%s\n" !count (!next_uid - 1) !status
+   | None -> Printf.printf "OK events=%d units=%d status=%s%s\n" !count (!next_uid - 1) !status (if !nohooks then " nohooks" else "")
    | Some m -> Printf.printf "MISMATCH %s\n" m);
   (* ---- monitors on the implementation's own observations ---- *)
   let bad = ref [] in
